@@ -2,12 +2,12 @@
 import math, random
 import numpy as np
 from scipy import sparse
-import kernels, tvlib, harness_acd
+import kernels, tvlib, harness_acd, harness_solvers
 import solverlib as sl
 
 GEN_SOURCES = ["skglm/solvers/common.py", "skglm/solvers/anderson_cd.py", "skglm/penalties/separable.py",
-               "skglm/datafits/single_task.py", "skglm/utils/prox_funcs.py"]
-EXTRA_TARGETS = ["Skel/MockACD.vo", "Gen/KernCD.vo", "Gen/KernACD.vo", "Gen/DfSingle.vo", "Gen/PenSeparable.vo"]
+               "skglm/datafits/single_task.py", "skglm/utils/prox_funcs.py", "skglm/solvers/gram_cd.py"]
+EXTRA_TARGETS = ["Skel/MockACD.vo", "Gen/KernCD.vo", "Gen/KernACD.vo", "Gen/DfSingle.vo", "Gen/PenSeparable.vo", "Skel/CorrSolvers.vo", "Skel/GramCDProofs.vo"]
 TRUSTED_BASE = [
     "Coq 8.16.1 kernel (coqc); vm_compute only in correspondence files",
     "axioms: Reals (sig_forall_dec, sig_not_dec), functional_extensionality_dep, Classical_Prop.classic",
@@ -36,10 +36,11 @@ def correspondence(tier, rng):
     kc = kernels.gen_cd_kernels(rng, 60 if tier == "quick" else 300)
     r2 = tvlib.run_cases(kc, ["Gen.ProxFuncs", "Gen.PenSeparable", "Gen.SparseOps", "Gen.DfSingle", "Gen.KernCD", "Gen.KernACD"],
                          "C01b", shard=25, jobs=16)
-    return dict(cases=len(cases) + len(kc), bad=(r1["bad"] + r2["bad"])[:10], errors=r1["errors"] + r2["errors"],
+    base = dict(cases=len(cases) + len(kc), bad=(r1["bad"] + r2["bad"])[:10], errors=r1["errors"] + r2["errors"],
                 distribution=dict(skeleton_runs=dist, kernel_cases=len(kc)),
                 distinct_nontrivial=len({c[0] for c in cases}) + len({c[0] for c in kc}),
                 samples=[dict(trace=cases[0][0][:600])] + [dict(case=kc[0][0][:300])])
+    return harness_solvers.merge_corr(base, harness_solvers.solver_corr(tier, rng, "C01s"))
 
 
 def _mk_cd(rng):
